@@ -1,6 +1,7 @@
 package l2
 
 import (
+	"strings"
 	"bytes"
 	"encoding/hex"
 	"fmt"
@@ -159,6 +160,19 @@ func (ch *Chain) execVal(e M) (Outcome, bool) {
 	ty := absx.Str(e["type"])
 	switch ty {
 	case "RegisterPlan", "BeginBlock", "EndBlock", "InitGenesis":
+	case "ExecProbe":
+		// an executor-only message that cannot succeed for another reason (a deposit far ahead of the next sequence): the
+		// answer tells whether the signer passed the executor check
+		c := ch.C
+		r := Deliver(f, ch.Ctx, &opchildtypes.MsgFinalizeTokenDeposit{Sender: c.Addr(absx.Str(e["signer"])), From: c.Addr("u2"), To: c.Addr("u1"),
+			Amount: coin(c, "l2/1/d1", 1), Sequence: 1 << 40, Height: 5, BaseDenom: c.Denom("d1")})
+		if r.OK {
+			return Outcome{OK: true, Resp: M{"ok": "?accepted"}}, true
+		}
+		if strings.Contains(r.ErrString(), "invalid sequence") {
+			return Outcome{OK: true, Resp: M{"ok": true}}, true
+		}
+		return Outcome{OK: false, Err: r.ErrString()}, true
 	case "Query":
 		if v == nil {
 			return Outcome{}, false
